@@ -62,4 +62,31 @@ def IsKCoreSetT (g : Graph) (etype : Option Nat) (k : Nat) (s : List Nat) : Prop
 def IsTriangleT (g : Graph) (etype : Option Nat) (a b c : Nat) : Prop :=
   a < b ∧ b < c ∧ adjacentT g etype a b ∧ adjacentT g etype b c ∧ adjacentT g etype a c
 
+/-! ### articulation points and bridges of the simple undirected view -/
+
+/-- connected by a walk over adjacent nodes -/
+inductive ConnT (g : Graph) (etype : Option Nat) : Nat → Nat → Prop
+  | refl (u : Nat) : ConnT g etype u u
+  | step {u v w : Nat} : adjacentT g etype u v → ConnT g etype v w → ConnT g etype u w
+
+/-- connected by a walk that never visits `x` -/
+inductive ConnAvoid (g : Graph) (etype : Option Nat) (x : Nat) : Nat → Nat → Prop
+  | refl (u : Nat) : u ≠ x → ConnAvoid g etype x u u
+  | step {u v w : Nat} : u ≠ x → adjacentT g etype u v → ConnAvoid g etype x v w → ConnAvoid g etype x u w
+
+/-- `x` is a cut vertex: two other nodes of its component are separated when `x` is removed -/
+def IsArticulation (g : Graph) (etype : Option Nat) (x : Nat) : Prop :=
+  ∃ a b, a ≠ x ∧ b ≠ x ∧ ConnT g etype x a ∧ ConnT g etype x b ∧ ¬ ConnAvoid g etype x a b
+
+/-- connected by a walk that never steps directly between `a` and `b` -/
+inductive ConnWithout (g : Graph) (etype : Option Nat) (a b : Nat) : Nat → Nat → Prop
+  | refl (u : Nat) : ConnWithout g etype a b u u
+  | step {u v w : Nat} : adjacentT g etype u v → ¬ ((u = a ∧ v = b) ∨ (u = b ∧ v = a)) →
+      ConnWithout g etype a b v w → ConnWithout g etype a b u w
+
+/-- the adjacent pair `a`, `b` is a bridge of the simple view: without their adjacency (all parallel
+    edges between them) they are disconnected -/
+def IsBridgePair (g : Graph) (etype : Option Nat) (a b : Nat) : Prop :=
+  adjacentT g etype a b ∧ ¬ ConnWithout g etype a b a b
+
 end Neumann.Paths
